@@ -380,30 +380,30 @@ Proof.
       * apply Hnin. rewrite <- Hdp. unfold paths_of. apply in_map. exact Hd.
 Qed.
 
-Lemma plan_deletions_ok src listing (dst : fs) :
+Lemma plan_deletions_ok keep src listing (dst : fs) :
   dst [] = None -> (forall p, In p listing -> dst p <> None) ->
-  forall t, In t (plan_deletions src listing) -> del_task_ok src t.
+  forall t, In t (plan_deletions (keep ++ src) listing) -> del_task_ok src t.
 Proof.
   intros Hroot Hl t Ht. unfold plan_deletions in Ht. apply in_map_iff in Ht. destruct Ht as (p & <- & Hp).
   apply filter_In in Hp. destruct Hp as [Hin Hf]. unfold del_task_ok. cbn [t_action t_src t_path]. repeat split.
   - intro Ep. subst p. apply (Hl [] Hin). exact Hroot.
   - intro Hc. unfold paths_of in Hc. apply in_map_iff in Hc. destruct Hc as (e & Ee & He).
-    apply negb_true_iff in Hf. assert (existsb (fun e0 => peqb (se_path e0) p) src = true); [|congruence].
-    apply existsb_exists. exists e. split; [exact He | apply peqb_eq; exact Ee].
+    apply negb_true_iff in Hf. assert (existsb (fun e0 => peqb (se_path e0) p) (keep ++ src) = true); [|congruence].
+    apply existsb_exists. exists e. split; [apply in_or_app; right; exact He | apply peqb_eq; exact Ee].
 Qed.
 
 (* ---------- C01: postcondition of a successful run ---------- *)
-Theorem run_post refuse ds c now U src dst :
+Theorem run_post refuse ds c now U keep src dst :
   src_wf src -> c_dry_run c = false -> dst [] = None ->
   (forall e, In e src -> se_is_dir e = true -> forall cc s t, dst (se_path e) <> Some (File cc s t)) ->
   (forall e, In e src -> se_is_dir e = false -> dst (se_path e) <> Some Dir) ->
-  let r := run refuse ds c now U src dst in
+  let r := run refuse ds c now U keep src dst in
   r_refused r = false -> r_errors r = [] ->
   forall e, In e src -> post c ds now dst (r_fs r) e.
 Proof.
   intros Hwf Hdry Hroot Hnf Hnd2 r Href Herr e He. subst r. unfold run in *. cbv zeta in *.
   set (listing := filter (fun p => match dst p with Some _ => true | None => false end) U) in *.
-  set (dels := if c_delete c then plan_deletions src listing else []) in *.
+  set (dels := if c_delete c then plan_deletions (keep ++ src) listing else []) in *.
   match type of Href with context [if ?b then _ else _] => destruct b eqn:Eb end; [cbn in Href; discriminate|].
   destruct (exec_all_noerr _ _ _ _ _ _ Herr) as [_ Eseq].
   rewrite exec_seq_app in Eseq.
@@ -422,30 +422,30 @@ Proof.
   cbn [exec_all]. unfold exec_task. rewrite Hdry. apply IH.
 Qed.
 
-Theorem dry_run_changes_nothing refuse ds c now U src dst :
-  c_dry_run c = true -> r_fs (run refuse ds c now U src dst) = dst.
+Theorem dry_run_changes_nothing refuse ds c now U keep src dst :
+  c_dry_run c = true -> r_fs (run refuse ds c now U keep src dst) = dst.
 Proof.
   intro Hdry. unfold run. match goal with |- context [if ?b then _ else _] => destruct b end; [reflexivity | apply exec_all_dry; exact Hdry].
 Qed.
 
-Theorem refusal_changes_nothing refuse ds c now U src dst :
-  r_refused (run refuse ds c now U src dst) = true ->
-  r_fs (run refuse ds c now U src dst) = dst /\ exit_status c (run refuse ds c now U src dst) = 1%Z /\ r_events (run refuse ds c now U src dst) = [].
+Theorem refusal_changes_nothing refuse ds c now U keep src dst :
+  r_refused (run refuse ds c now U keep src dst) = true ->
+  r_fs (run refuse ds c now U keep src dst) = dst /\ exit_status c (run refuse ds c now U keep src dst) = 1%Z /\ r_events (run refuse ds c now U keep src dst) = [].
 Proof.
   unfold run. match goal with |- context [if ?b then _ else _] => destruct b eqn:Eb end.
   - intros _. repeat split.
-  - intro H. exfalso. revert H. generalize (map (plan_entry c ds dst) src ++ (if c_delete c then plan_deletions src (filter (fun p => match dst p with Some _ => true | None => false end) U) else [])).
+  - intro H. exfalso. revert H. generalize (map (plan_entry c ds dst) src ++ (if c_delete c then plan_deletions (keep ++ src) (filter (fun p => match dst p with Some _ => true | None => false end) U) else [])).
     intro ts. generalize (@nil (path * eaction * err)) (@nil (eaction * path)). generalize dst.
     induction ts as [|t ts IH]; intros m errs evs; cbn [exec_all]; [cbn; discriminate|].
     destruct (exec_task c now m t); apply IH.
 Qed.
 
-Theorem refuses_when_guard_fires refuse ds c now U src dst :
+Theorem refuses_when_guard_fires refuse ds c now U keep src dst :
   let listing := filter (fun p => match dst p with Some _ => true | None => false end) U in
-  let dels := plan_deletions src listing in
+  let dels := plan_deletions (keep ++ src) listing in
   c_delete c = true -> c_force_delete c = false -> dels <> [] ->
   refuse (Z.of_nat (length dels)) (Z.of_nat (length listing)) (c_threshold c) = true ->
-  r_refused (run refuse ds c now U src dst) = true.
+  r_refused (run refuse ds c now U keep src dst) = true.
 Proof.
   intros listing dels Hd Hf Hne Hr. unfold run. fold listing. rewrite Hd. fold dels. rewrite Hf, Hr. cbn [negb andb].
   destruct dels; [congruence | reflexivity].
@@ -463,9 +463,9 @@ Proof.
   - apply IH; [intros t' Ht'; apply Hall; right; exact Ht' | exact Hx].
 Qed.
 
-Theorem no_delete_no_loss refuse ds c now U src dst q x :
+Theorem no_delete_no_loss refuse ds c now U keep src dst q x :
   c_delete c = false -> ~ In q (paths_of src) -> dst q = Some x ->
-  r_fs (run refuse ds c now U src dst) q = Some x.
+  r_fs (run refuse ds c now U keep src dst) q = Some x.
 Proof.
   intros Hd Hq Hx. unfold run. rewrite Hd. cbn [andb]. rewrite app_nil_r.
   apply exec_all_keeps; [|exact Hx].
@@ -518,35 +518,50 @@ Proof.
 Qed.
 
 (* ---------- C06: exact mirror ---------- *)
+Lemma paths_of_app a b : paths_of (a ++ b) = paths_of a ++ paths_of b.
+Proof. unfold paths_of. apply map_app. Qed.
+
+(* with --delete, a destination path that has no counterpart anywhere in the source scan (selected or filtered out) is gone *)
+Theorem stale_removed refuse ds c now U keep src dst :
+  src_wf src -> c_dry_run c = false -> c_delete c = true -> dst [] = None ->
+  let r := run refuse ds c now U keep src dst in
+  r_refused r = false -> r_errors r = [] ->
+  forall q, In q U -> ~ In q (paths_of (keep ++ src)) -> r_fs r q = None.
+Proof.
+  intros Hwf Hdry Hdel Hroot r Href Herr q HqU Hnin0.
+  assert (Hnin : ~ In q (paths_of src)) by (intro H; apply Hnin0; rewrite paths_of_app; apply in_or_app; right; exact H).
+  subst r. unfold run in *. cbv zeta in *. rewrite Hdel in *.
+  match type of Href with context [if ?b then _ else _] => destruct b eqn:Eb end; [cbn in Href; discriminate|].
+  destruct (exec_all_noerr _ _ _ _ _ _ Herr) as [_ Eseq]. cbv iota beta in Eseq. rewrite exec_seq_app in Eseq.
+  destruct (exec_seq c now dst (map (plan_entry c ds dst) src)) as [m1|] eqn:E1; [|discriminate].
+  destruct (dels_never_fail c now Hdry (plan_deletions (keep ++ src) (filter (fun p => match dst p with Some _ => true | None => false end) U)) m1) as (mf & Ef & Hq).
+  { intros t Ht. unfold plan_deletions in Ht. apply in_map_iff in Ht. destruct Ht as (p & <- & _). reflexivity. }
+  pose proof (eq_trans (eq_sym Ef) Eseq) as Emf. injection Emf as Emf. rewrite <- Emf. apply Hq.
+  destruct (dst q) as [x|] eqn:Edq.
+  + left. unfold plan_deletions. rewrite map_map. cbn [t_path]. rewrite map_id. apply filter_In. split.
+    * apply filter_In. split; [exact HqU | rewrite Edq; reflexivity].
+    * apply negb_true_iff. destruct (existsb (fun e => peqb (se_path e) q) (keep ++ src)) eqn:Ex; [|reflexivity].
+      exfalso. apply existsb_exists in Ex. destruct Ex as (e & He & Ee). apply peqb_eq in Ee. apply Hnin0. rewrite <- Ee. unfold paths_of. apply in_map. exact He.
+  + right. destruct Hwf as (_ & _ & _ & Hclosed).
+    apply (src_tasks_keep_absent c ds now dst src dst m1 q); [| | exact Edq | exact E1].
+    * intros e a He Hpr Eq. subst a. destruct (Hclosed e q He Hpr) as (d & Hd & Hdp & _). apply Hnin. rewrite <- Hdp. unfold paths_of. apply in_map. exact Hd.
+    * intros e He Eq. apply Hnin. rewrite <- Eq. unfold paths_of. apply in_map. exact He.
+Qed.
+
+(* an UNFILTERED run (nothing kept out): the destination's paths are exactly the source's *)
 Theorem mirror refuse ds c now U src dst :
   src_wf src -> c_dry_run c = false -> c_delete c = true -> dst [] = None ->
   (forall e, In e src -> se_is_dir e = true -> forall cc s t, dst (se_path e) <> Some (File cc s t)) ->
   (forall e, In e src -> se_is_dir e = false -> dst (se_path e) <> Some Dir) ->
-  let r := run refuse ds c now U src dst in
+  let r := run refuse ds c now U [] src dst in
   r_refused r = false -> r_errors r = [] ->
   forall q, In q U -> (r_fs r q <> None <-> In q (paths_of src)).
 Proof.
   intros Hwf Hdry Hdel Hroot Hnf Hnd2 r Href Herr q HqU. split.
-  - (* nothing outside the source listing survives *)
-    intro Hsome. destruct (in_dec (list_eq_dec N.eq_dec) q (paths_of src)) as [Hin|Hnin]; [exact Hin|]. exfalso. apply Hsome.
-    subst r. unfold run in *. cbv zeta in *. rewrite Hdel in *.
-    match type of Href with context [if ?b then _ else _] => destruct b eqn:Eb end; [cbn in Href; discriminate|].
-    destruct (exec_all_noerr _ _ _ _ _ _ Herr) as [_ Eseq]. cbv iota beta in Eseq. rewrite exec_seq_app in Eseq.
-    destruct (exec_seq c now dst (map (plan_entry c ds dst) src)) as [m1|] eqn:E1; [|discriminate].
-    destruct (dels_never_fail c now Hdry (plan_deletions src (filter (fun p => match dst p with Some _ => true | None => false end) U)) m1) as (mf & Ef & Hq).
-    { intros t Ht. unfold plan_deletions in Ht. apply in_map_iff in Ht. destruct Ht as (p & <- & _). reflexivity. }
-    pose proof (eq_trans (eq_sym Ef) Eseq) as Emf. injection Emf as Emf. rewrite <- Emf. apply Hq.
-    destruct (dst q) as [x|] eqn:Edq.
-    + left. unfold plan_deletions. rewrite map_map. cbn [t_path]. rewrite map_id. apply filter_In. split.
-      * apply filter_In. split; [exact HqU | rewrite Edq; reflexivity].
-      * apply negb_true_iff. destruct (existsb (fun e => peqb (se_path e) q) src) eqn:Ex; [|reflexivity].
-        exfalso. apply existsb_exists in Ex. destruct Ex as (e & He & Ee). apply peqb_eq in Ee. apply Hnin. rewrite <- Ee. unfold paths_of. apply in_map. exact He.
-    + right. destruct Hwf as (_ & _ & _ & Hclosed).
-      apply (src_tasks_keep_absent c ds now dst src dst m1 q); [| | exact Edq | exact E1].
-      * intros e a He Hpr Eq. subst a. destruct (Hclosed e q He Hpr) as (d & Hd & Hdp & _). apply Hnin. rewrite <- Hdp. unfold paths_of. apply in_map. exact Hd.
-      * intros e He Eq. apply Hnin. rewrite <- Eq. unfold paths_of. apply in_map. exact He.
+  - intro Hsome. destruct (in_dec (list_eq_dec N.eq_dec) q (paths_of src)) as [Hin|Hnin]; [exact Hin|]. exfalso. apply Hsome.
+    apply (stale_removed refuse ds c now U [] src dst Hwf Hdry Hdel Hroot Href Herr q HqU). exact Hnin.
   - intro Hin. unfold paths_of in Hin. apply in_map_iff in Hin. destruct Hin as (e & <- & He).
-    destruct (run_post refuse ds c now U src dst Hwf Hdry Hroot Hnf Hnd2 Href Herr e He) as (x & Hx & _). fold r in Hx. congruence.
+    destruct (run_post refuse ds c now U [] src dst Hwf Hdry Hroot Hnf Hnd2 Href Herr e He) as (x & Hx & _). fold r in Hx. congruence.
 Qed.
 
 (* ---------- C10: truthful exit status ---------- *)
@@ -577,19 +592,19 @@ Definition event_true (dst final : fs) (ev : eaction * path) : Prop :=
   | ADelete => dst (snd ev) <> None /\ final (snd ev) = None
   end.
 
-Theorem events_truthful refuse ds c now U src dst :
+Theorem events_truthful refuse ds c now U keep src dst :
   src_wf src -> c_dry_run c = false -> dst [] = None ->
   (forall e, In e src -> se_is_dir e = true -> forall cc s t, dst (se_path e) <> Some (File cc s t)) ->
   (forall e, In e src -> se_is_dir e = false -> dst (se_path e) <> Some Dir) ->
   (forall p, dst p <> None -> In p U) ->
-  let r := run refuse ds c now U src dst in
+  let r := run refuse ds c now U keep src dst in
   r_refused r = false -> r_errors r = [] ->
   forall ev, In ev (r_events r) -> event_true dst (r_fs r) ev.
 Proof.
   intros Hwf Hdry Hroot Hnf Hnd2 HU r Href Herr ev Hev.
-  pose proof (run_post refuse ds c now U src dst Hwf Hdry Hroot Hnf Hnd2 Href Herr) as Hpost.
+  pose proof (run_post refuse ds c now U keep src dst Hwf Hdry Hroot Hnf Hnd2 Href Herr) as Hpost.
   assert (Hevs : r_events r = map (fun t => (t_action t, t_path t))
-                   (map (plan_entry c ds dst) src ++ (if c_delete c then plan_deletions src (filter (fun p => match dst p with Some _ => true | None => false end) U) else []))).
+                   (map (plan_entry c ds dst) src ++ (if c_delete c then plan_deletions (keep ++ src) (filter (fun p => match dst p with Some _ => true | None => false end) U) else []))).
   { subst r. unfold run in *. cbv zeta in *.
     match type of Href with context [if ?b then _ else _] => destruct b eqn:Eb end; [cbn in Href; discriminate|].
     apply (exec_all_events c now _ dst [] [] Herr). }
@@ -613,9 +628,7 @@ Proof.
     unfold plan_deletions in Ht. apply in_map_iff in Ht. destruct Ht as (p & <- & Hp). apply filter_In in Hp. destruct Hp as [Hin Hf].
     apply filter_In in Hin. destruct Hin as [HpU Hs]. unfold event_true. cbn [fst snd t_action t_path]. split.
     + destruct (dst p); [discriminate | discriminate].
-    + destruct (r_fs r p) eqn:Er; [|reflexivity]. exfalso.
-      assert (Hin : In p (paths_of src)).
-      { apply (mirror refuse ds c now U src dst Hwf Hdry Hdel Hroot Hnf Hnd2 Href Herr p HpU). fold r. congruence. }
-      apply negb_true_iff in Hf. unfold paths_of in Hin. apply in_map_iff in Hin. destruct Hin as (e & Ee & He).
-      assert (existsb (fun e0 => peqb (se_path e0) p) src = true) by (apply existsb_exists; exists e; split; [exact He | apply peqb_eq; exact Ee]). congruence.
+    + apply (stale_removed refuse ds c now U keep src dst Hwf Hdry Hdel Hroot Href Herr p HpU).
+      intro Hin. apply negb_true_iff in Hf. unfold paths_of in Hin. apply in_map_iff in Hin. destruct Hin as (e & Ee & He).
+      assert (existsb (fun e0 => peqb (se_path e0) p) (keep ++ src) = true) by (apply existsb_exists; exists e; split; [exact He | apply peqb_eq; exact Ee]). congruence.
 Qed.
